@@ -26,6 +26,10 @@ package sender
 // through heartbeat and finishes through complete), and the type entry is the message type
 //@ site call Marshal assert [C19 C07 C08 C20] sqe.Submission.Sender.Task.Mesg.Type != message.Notify ==> dyn(dyn(v)["href"])["claim"] == sqe.Submission.Sender.ClaimHref && dyn(dyn(v)["href"])["complete"] == sqe.Submission.Sender.CompleteHref && dyn(dyn(v)["href"])["heartbeat"] == sqe.Submission.Sender.HeartbeatHref
 //@ site call Marshal assert [C19 C07 C08 C20] dyn(dyn(v)["type"]) == sqe.Submission.Sender.Task.Mesg.Type
+// every message handed to a transport carries an encoded body: the body is the one encoding made for this submission
+// (a message type for which no body is built would be dispatched empty: no task id, no links)
+//@ abstract-calls force ^Marshal$
+//@ site call Enqueue assert [C19 C08 C07 C20] calls("Marshal") == 1
 //@ site call Enqueue assert recv != nil && arg0 != nil && arg0.Type == sqe.Submission.Sender.Task.Mesg.Type && arg0.Data == recv.Data && arg0.Done != nil
 //@ site call Enqueue assert has_key(w.plugins, recv.Type) && self == w.plugins[recv.Type]
 //@ site call Enqueue assert logicalRecv != nil && has_key(w.targets, *logicalRecv) && w.targets[*logicalRecv] != nil ==> recv == w.targets[*logicalRecv]
